@@ -201,7 +201,9 @@ def gen_compu(rng):
 
 def load_compu(c):
     from odxtools.database import Database
-    pt = "A_UNICODE2STRING" if c["k"] == "texttable" else "A_INT32"
+    pt = c.get("pt") or ("A_UNICODE2STRING" if c["k"] == "texttable" else "A_INT32")
+    if c.get("it"):
+        return load_compu_typed(c, c["it"], pt)
     xml = ('<?xml version="1.0" encoding="UTF-8"?><ODX MODEL-VERSION="2.2.0" xmlns:xsi="http://www.w3.org/2001/XMLSchema-instance">'
            '<DIAG-LAYER-CONTAINER ID="DLC"><SHORT-NAME>DLC</SHORT-NAME><BASE-VARIANTS><BASE-VARIANT ID="BV"><SHORT-NAME>BV</SHORT-NAME>'
            '<DIAG-DATA-DICTIONARY-SPEC><DATA-OBJECT-PROPS><DATA-OBJECT-PROP ID="d"><SHORT-NAME>d</SHORT-NAME>' + x_compu(c) +
@@ -212,6 +214,126 @@ def load_compu(c):
     db._process_xml_tree(ET.fromstring(xml))
     db.refresh()
     return db.diag_layers[0].diag_layer_raw.diag_data_dictionary_spec.data_object_props[0].compu_method
+
+
+def load_compu_typed(c, it, pt):
+    from odxtools.compumethods.createanycompumethod import create_any_compu_method_from_et
+    from odxtools.odxlink import DocType, OdxDocFragment
+    from odxtools.odxtypes import DataType
+    return create_any_compu_method_from_et(ET.fromstring(x_compu(c)), [OdxDocFragment("c07", DocType.CONTAINER)],
+                                           internal_type=DataType(it), physical_type=DataType(pt))
+
+
+def float_checks(ck, rng, quick):
+    """Oracle only (the model is exact integer arithmetic): float-typed methods against exact rational arithmetic.
+    Limits are dyadic rationals, i.e. the double read from the ODX text IS the specified number; probes are the
+    neighbouring doubles of each limit. Coefficients of the piecewise-linear methods are decimals (tenths) which are
+    continuous in exact arithmetic although their double images differ by an ulp at the boundaries."""
+    import math
+    from decimal import Decimal
+    F = "A_FLOAT64"
+
+    def near(x):
+        out = {x, math.nextafter(x, math.inf), math.nextafter(x, -math.inf), x + 1e-10, x - 1e-10}
+        if x != 0:
+            out |= {x * (1 + 1e-10), x * (1 - 1e-10), x * (1 + 1e-12)}
+        return sorted(out)
+
+    def inside(x, lo, hi):
+        return lim_ok_lower((Fraction(lo[0]), lo[1]), Fraction(x)) and lim_ok_upper((Fraction(hi[0]), hi[1]), Fraction(x))
+
+    n = 0
+    # (a) limits are exact: LINEAR f(x) = 2x (exact in binary), float internal and physical type
+    for _ in range(25 if quick else 300):
+        lo_v = rng.choice(["0", "0.5", "-2.25", "1000", "0.125", "-1024", "3"])
+        hi_v = str(Decimal(lo_v) + Decimal(rng.choice(["1", "0.5", "1000", "0.25", "4096"])))
+        lo, hi = (lo_v, rng.choice([0, 1, None])), (hi_v, rng.choice([0, 1, None]))
+        c = dict(k="linear", it=F, pt=F, s=dict(off=0, num=2, den=1, lo=lo, hi=hi, inv=None))
+        try:
+            cm = load_compu(c)
+        except Exception as e:  # noqa
+            ck.note_broken(f"float LINEAR method does not load: {type(e).__name__}: {e}")
+            return
+        for x in near(float(lo_v)) + near(float(hi_v)) + [(float(lo_v) + float(hi_v)) / 2]:
+            n += 1
+            ck.count(("float-limit", repr(c), x))
+            want = inside(x, lo, hi)
+            got = call(cm.is_valid_internal_value, x)
+            y = 2 * x
+            got_p = call(cm.is_valid_physical_value, y)
+            if got != want or got_p != want:
+                ck.violation(f"LINEAR 2x over {'[(' [lo[1] == 0]}{lo_v}, {hi_v}{'])' [hi[1] == 0]} (A_FLOAT64): "
+                             f"is_valid_internal_value({x!r}) = {got}, is_valid_physical_value({y!r}) = {got_p}, the limits say {want}",
+                             {"compu": c, "values": [x], "float": True})
+                return
+            if want:
+                a = cc.guarded(lambda: cm.convert_internal_to_physical(x))
+                b = cc.guarded(lambda: cm.convert_physical_to_internal(y))
+                if a[1] is not None or b[1] is not None or a[0] != y or b[0] != x:
+                    ck.violation(f"LINEAR 2x (A_FLOAT64): {x!r} -> {a[0]!r} {a[1]!r}; {y!r} -> {b[0]!r} {b[1]!r}",
+                                 {"compu": c, "values": [x], "float": True})
+                    return
+    # float ranges of a text table
+    for _ in range(10 if quick else 100):
+        lo_v, hi_v = rng.choice([("0.5", "1.5"), ("-2.25", "0"), ("1000", "1000.5")])
+        lo, hi = (lo_v, rng.choice([0, 1])), (hi_v, rng.choice([0, 1]))
+        c = dict(k="texttable", it=F, pt="A_UNICODE2STRING", scales=[dict(lo=lo, hi=hi, const="in", inv=None)], pdef=None, idef=None)
+        cm = load_compu(c)
+        for x in near(float(lo_v)) + near(float(hi_v)):
+            n += 1
+            ck.count(("float-text", repr(c), x))
+            want = inside(x, lo, hi)
+            got = call(cm.is_valid_internal_value, x)
+            r, e, _ = cc.guarded(lambda: cm.convert_internal_to_physical(x))
+            if got != want or (want and r != "in"):
+                ck.violation(f"TEXTTABLE range {lo} .. {hi} (A_FLOAT64): is_valid_internal_value({x!r}) = {got}, "
+                             f"text {r!r} {e!r}; the limits say {want}", {"compu": c, "values": [x], "float": True})
+                return
+    # (b) monotone continuous piecewise-linear methods with decimal coefficients can always encode
+    for _ in range(25 if quick else 300):
+        nseg = rng.choice([2, 2, 3])
+        bounds = sorted(rng.sample(range(0, 40), nseg + 1))
+        sign = rng.choice([1, 1, -1])
+        slopes = [sign * Decimal(rng.choice(["0.1", "0.2", "0.3", "0.7", "1.1", "0.9"])) for _ in range(nseg)]
+        off = Decimal(rng.choice(["0", "0.1", "-0.3", "2.7"]))
+        segs, exact = [], []
+        for i in range(nseg):
+            if i > 0:
+                off = off + (slopes[i - 1] - slopes[i]) * bounds[i]
+            segs.append(dict(off=str(off), num=str(slopes[i]), den=1, lo=(bounds[i], 1), hi=(bounds[i + 1], 1), inv=None))
+            exact.append((Fraction(off), Fraction(slopes[i])))
+        c = dict(k="scalelinear", it=rng.choice(["A_UINT32", "A_INT32", F]), pt=F, segs=segs)
+        try:
+            cm = load_compu(c)
+        except Exception as e:  # noqa
+            ck.violation(f"continuous monotone SCALE-LINEAR method with decimal coefficients does not load: {type(e).__name__}: {e}",
+                         {"compu": c, "values": [], "float": True})
+            return
+        for x in range(bounds[0], bounds[-1] + 1):
+            n += 1
+            ck.count(("float-scalelinear", repr(c), x))
+            i = max(j for j in range(nseg) if bounds[j] <= x)
+            i = min(i, nseg - 1)
+            want_y = exact[i][0] + exact[i][1] * x
+            xv = float(x) if c["it"] == F else x
+            y, e, _ = cc.guarded(lambda: cm.convert_internal_to_physical(xv))
+            what = None
+            if e is not None or abs(Fraction(y) - want_y) > Fraction(1, 10**9):
+                what = f"convert_internal_to_physical({xv!r}) = {y!r} {e!r}, the formula gives {float(want_y)!r}"
+            else:
+                vp = call(cm.is_valid_physical_value, y)
+                back, e2, _ = cc.guarded(lambda: cm.convert_physical_to_internal(y))
+                interior = x not in bounds
+                if vp is True and e2 is not None:
+                    what = f"physical value {y!r} is declared valid but convert_physical_to_internal fails ({type(e2).__name__}: {e2})"
+                elif interior and (vp is not True or e2 is not None or abs(back - x) > 1e-6):
+                    what = (f"the image {y!r} of the internal value {x}: is_valid_physical_value = {vp}, "
+                            f"convert_physical_to_internal = {back!r} {e2!r}")
+            if what:
+                ck.violation("monotone continuous SCALE-LINEAR method (decimal coefficients): " + what,
+                             {"compu": c, "values": [x], "float": True})
+                return
+    ck.coverage["float_probes"] = n
 
 
 def call(fn, v):
@@ -370,6 +492,8 @@ def main(argv=None):
                     break
         if i % 97 == 0:
             ck.sample({"compu": c, "values": vals[:6], "results": res[:6]})
+    if not ck.replay or any(c.get("it") for c, _ in cases):
+        float_checks(ck, rng, quick)
     ck.assumptions = ["integer internal and physical types, integer coefficients, |values| < 2^11: inside this envelope binary64 "
                       "arithmetic of the implementation provably rounds like the exact quotient (DESIGN.md C07)"]
     ck.finish(
